@@ -105,12 +105,22 @@ harness!(sizing_bloom_len_estimate, unwind 67, ln, {
             bs.set(i, (word >> i) & 1 == 1);
         }
     }
-    let x = word.count_ones() as f64;
-    let (lo, hi) = ln_band(1.0 - x / 64.0);
+    // the admissible interval for every (k, X) is computed from CONCRETE values (constant-folded), so that the only symbolic
+    // float arithmetic left is the one inside len() itself
+    let mut lo_t = [[0.0f64; 64]; 3];
+    let mut hi_t = [[0.0f64; 64]; 3];
+    for kk in 0..3 {
+        for i in 0..64 {
+            let (lo, hi) = ln_band(1.0 - (i as f64) / 64.0);
+            let c = 64.0 / ((kk + 1) as f64);
+            lo_t[kk][i] = c * (-hi) - 1.0 - 1e-6;
+            hi_t[kk][i] = c * (-lo) + 1e-6;
+        }
+    }
+    let xi = word.count_ones() as usize;
     let est = f.len() as f64;
-    let c = 64.0 / (k as f64);
-    chk!("len_estimate_not_below_formula", est >= c * (-hi) - 1.0 - 1e-6);
-    chk!("len_estimate_not_above_formula", est <= c * (-lo) + 1e-6);
+    chk!("len_estimate_not_below_formula", est >= lo_t[k - 1][xi]);
+    chk!("len_estimate_not_above_formula", est <= hi_t[k - 1][xi]);
     cov!("half_full", word.count_ones() == 32);
     cov!("one_bit", word.count_ones() == 1);
 });
